@@ -8,6 +8,7 @@ Open Scope N_scope.
 (* ------------------------------------------------------------ well-formedness of the input *)
 Definition pfx_char (c : N) : bool := word_char c && negb (c =? 58) && negb (c =? 60) && negb (c =? 34).
 Definition pfx_ok (p : str) : bool := forallb pfx_char p.
+Definition no_us (p : str) : bool := negb (match p with c :: _ => c =? 95 | [] => false end).   (* no prefix starts with '_' *)
 Definition iri_ok (u : str) : bool := forallb (fun c => negb (c =? 62)) u.
 Definition word_ok (w : str) : bool :=
   match w with c :: _ => negb (c =? 60) && negb (c =? 34) | [] => false end && forallb word_char w.
@@ -15,7 +16,7 @@ Definition word_ok (w : str) : bool :=
 (* a prefixed-name decision is usable: the prefix is declared and namespace ++ local is the IRI *)
 Definition qent_ok (ns : nstab) (e : (bool * str) * (str * str)) : bool :=
   let '((_, u), (p, l)) := e in
-  pfx_ok p && forallb word_char l &&
+  pfx_ok p && no_us p && forallb word_char l &&
   match ns_lookup (rev ns) p with Some n => str_eqb (n ++ unescape_local l) u | None => false end.
 Definition q_ok (ns : nstab) (q : qtab) : bool := forallb (qent_ok ns) q.
 Definition ns_ok (ns : nstab) : bool := forallb (fun pn => pfx_ok (fst pn) && iri_ok (snd pn)) ns.
@@ -24,6 +25,7 @@ Definition nonempty_s (s : str) : bool := match s with [] => false | _ => true e
 Definition term_ok (t : tterm) : bool :=
   match t with
   | TIri u => iri_ok u
+  | TBn l => forallb word_char l
   | TLit _ None None => true
   | TLit _ (Some l) None => nonempty_s l && forallb word_char l
   | TLit _ None (Some d) => nonempty_s d && iri_ok d
@@ -31,8 +33,9 @@ Definition term_ok (t : tterm) : bool :=
   end.
 Definition po_ok (po : str * list tterm) : bool :=
   iri_ok (fst po) && negb (match snd po with [] => true | _ => false end) && forallb term_ok (snd po).
-Definition sp_ok (sp : str * list (str * list tterm)) : bool :=
-  iri_ok (fst sp) && negb (match snd sp with [] => true | _ => false end) && forallb po_ok (snd sp).
+Definition subj_ok (t : tterm) : bool := match t with TLit _ _ _ => false | _ => term_ok t end.
+Definition sp_ok (sp : tterm * list (str * list tterm)) : bool :=
+  subj_ok (fst sp) && negb (match snd sp with [] => true | _ => false end) && forallb po_ok (snd sp).
 Definition plan_ok (pl : plan) : bool := forallb sp_ok pl.
 Definition ts_wf (c : ts_case) : bool := ns_ok (ts_ns c) && q_ok (ts_ns c) (ts_q c) && plan_ok (ts_plan c).
 
@@ -54,6 +57,7 @@ Definition tok_quoted (q : qtab) (lex : str) (lang dt : option str) : list token
 Definition tok_term (q : qtab) (t : tterm) : list token :=
   match t with
   | TIri u => [tok_iri q false u]
+  | TBn l => [KWord ([95; 58] ++ l)]
   | TLit lex lang dt =>
     match dt with
     | Some d => if str_eqb d xsd_integer_s && is_int_lex lex then [KWord lex]
@@ -75,8 +79,8 @@ Definition toks_preds (q : qtab) (ps : list (str * list tterm)) : list token :=
   | [] => []
   | (p, os) :: r => tok_iri q true p :: toks_objs q os ++ flat_map (tpred_more q) r
   end.
-Definition toks_stmt (q : qtab) (sp : str * list (str * list tterm)) : list token :=
-  tok_iri q false (fst sp) :: toks_preds q (snd sp) ++ [KWord s_dot].
+Definition toks_stmt (q : qtab) (sp : tterm * list (str * list tterm)) : list token :=
+  tok_term q (fst sp) ++ toks_preds q (snd sp) ++ [KWord s_dot].
 Definition tprefix_line (pn : str * str) : list token :=
   [KWord s_prefix_word; KWord (fst pn ++ [58]); KIri (snd pn); KWord s_dot].
 Definition toks_header (ns : nstab) : list token := flat_map tprefix_line ns.
@@ -180,12 +184,13 @@ Proof.
 Qed.
 
 Lemma q_ok_lookup : forall ns q v u p l, q_ok ns q = true -> qlookup q v u = Some (p, l) ->
-  pfx_ok p = true /\ forallb word_char l = true /\ exists n, ns_lookup (rev ns) p = Some n /\ n ++ unescape_local l = u.
+  pfx_ok p = true /\ forallb word_char l = true /\ (exists n, ns_lookup (rev ns) p = Some n /\ n ++ unescape_local l = u)
+  /\ no_us p = true.
 Proof.
   intros ns q v u p l Hq H. destruct (qlookup_in _ _ _ _ _ H) as (v' & u' & Hin & ->).
   unfold q_ok in Hq. rewrite forallb_forall in Hq. specialize (Hq _ Hin). cbn [qent_ok] in Hq.
-  apply andb_true_iff in Hq as [Hq H3]. apply andb_true_iff in Hq as [H1 H2].
-  split; [exact H1|]. split; [exact H2|].
+  apply andb_true_iff in Hq as [Hq H3]. apply andb_true_iff in Hq as [Hq H2]. apply andb_true_iff in Hq as [H1 Hus].
+  split; [exact H1|]. split; [exact H2|]. split; [|exact Hus].
   destruct (ns_lookup (rev ns) p) as [n|]; [|discriminate]. exists n. split; [reflexivity|now apply str_eqb_eq].
 Qed.
 
@@ -310,8 +315,10 @@ Qed.
 Lemma lex_label_term : forall ns q t z, q_ok ns q = true -> term_ok t = true -> dl z = true ->
   lexs 0 (label_term q t ++ z) = tok_term q t ++ lexs 0 z.
 Proof.
-  intros ns q [u|lex lang dt] z Hq Hok Hz.
+  intros ns q [u|l|lex lang dt] z Hq Hok Hz.
   - cbn [label_term tok_term app]. now apply (lex_label_iri ns).
+  - cbn [label_term tok_term app]. change (95 :: 58 :: l ++ z) with (([95; 58] ++ l) ++ z).
+    apply lex_word; [|exact Hz]. unfold word_ok. cbn [app forallb]. simpl in Hok. now rewrite Hok.
   - cbn [label_term tok_term]. destruct dt as [d|]; [|now apply (lex_quoted ns)].
     destruct (str_eqb d xsd_integer_s && is_int_lex lex) eqn:E1.
     + apply andb_true_iff in E1 as [_ E1]. apply lex_word; [now apply is_int_word_ok|exact Hz].
@@ -408,9 +415,10 @@ Proof.
   intros ns q [s ps] z Hq Hok. unfold sp_ok in Hok. cbn [fst snd] in Hok.
   apply andb_true_iff in Hok as [Hok Hps]. apply andb_true_iff in Hok as [Hs Hne].
   assert (Hps' : ps <> []) by (destruct ps; [discriminate|congruence]).
+  assert (Hst : term_ok s = true) by (destruct s; [exact Hs|exact Hs|discriminate]).
   unfold write_stmt, toks_stmt. cbn [fst snd]. rewrite <- ?app_assoc. cbn [app].
   rewrite lexs_ws by reflexivity.
-  rewrite (lex_label_iri ns) by (try assumption; now apply write_preds_dl).
+  rewrite (lex_label_term ns) by (try assumption; now apply write_preds_dl).
   rewrite (lex_preds ns) by (try assumption; reflexivity).
   rewrite lexs_blank, lex_dot. cbn [app]. rewrite <- ?app_assoc; reflexivity.
 Qed.
@@ -476,7 +484,7 @@ Qed.
 Definition names (env : nstab) (tok : token) (u : str) : Prop :=
   tok = KIri u \/
   exists w, tok = KWord w /\ word_iri env w = Some u /\ str_eqb w s_prefix_word = false /\ str_eqb w s_a = false /\
-            is_int_lex w = false /\ (str_eqb w s_true || str_eqb w s_false) = false.
+            is_int_lex w = false /\ (str_eqb w s_true || str_eqb w s_false) = false /\ bn_word w = None.
 
 Lemma pfx_no_colon : forall p, pfx_ok p = true -> forallb (fun c => negb (c =? 58)) p = true.
 Proof.
@@ -487,12 +495,17 @@ Qed.
 Lemma tok_name_names : forall ns q v u, q_ok ns q = true -> names (rev ns) (tok_name q v u) u.
 Proof.
   intros ns q v u Hq. unfold tok_name. destruct (qlookup q v u) as [[p l]|] eqn:E; [|now left].
-  destruct (q_ok_lookup _ _ _ _ _ _ Hq E) as (Hp & Hl & n & Hn & Hu).
+  destruct (q_ok_lookup _ _ _ _ _ _ Hq E) as (Hp & Hl & (n & Hn & Hu) & Hus).
+  assert (Hbn : bn_word (p ++ [58] ++ l) = None).
+  { destruct p as [|c [|d p']]; cbn [app bn_word].
+    - destruct l; reflexivity.
+    - unfold no_us in Hus. apply negb_true_iff in Hus. now rewrite Hus.
+    - unfold no_us in Hus. apply negb_true_iff in Hus. now rewrite Hus. }
   right. exists (p ++ [58] ++ l). split; [reflexivity|]. split.
   - unfold word_iri. rewrite colon_word_neq by reflexivity. unfold resolve_word.
     change (p ++ [58] ++ l) with (p ++ 58 :: l).
     rewrite (span_app_stop _ p 58 l (pfx_no_colon p Hp)) by reflexivity. now rewrite Hn, Hu.
-  - repeat split; try (apply colon_word_neq; reflexivity); [now apply colon_not_int|].
+  - repeat split; try (apply colon_word_neq; reflexivity); [now apply colon_not_int| |exact Hbn].
     now rewrite !colon_word_neq by reflexivity.
 Qed.
 
@@ -506,9 +519,10 @@ Proof.
   - cbn [andb]. now apply tok_name_names.
 Qed.
 
-Lemma run_subj : forall env tok u T acc, names env tok u -> run env RSubj (tok :: T) acc = run env (RPred u) T acc.
+Lemma run_subj : forall env tok u T acc, names env tok u ->
+  run env RSubj (tok :: T) acc = run env (RPred (TIri u)) T acc.
 Proof.
-  intros env tok u T acc [->|(w & -> & Hw & H1 & _)]; [reflexivity|]. cbn [run]. now rewrite H1, Hw.
+  intros env tok u T acc [->|(w & -> & Hw & H1 & _ & _ & _ & Hb)]; [reflexivity|]. cbn [run]. now rewrite Hb, H1, Hw.
 Qed.
 
 Lemma run_pred : forall ns q s p T acc, q_ok ns q = true ->
@@ -525,7 +539,7 @@ Qed.
 Lemma run_obj_name : forall env tok u s p T acc, names env tok u ->
   run env (RObj s p) (tok :: T) acc = run env (RAfter s p) T (acc ++ [(s, p, TIri u)]).
 Proof.
-  intros env tok u s p T acc [->|(w & -> & Hw & _ & _ & H3 & H4)]; [reflexivity|]. cbn [run]. now rewrite H3, H4, Hw.
+  intros env tok u s p T acc [->|(w & -> & Hw & _ & _ & H3 & H4 & Hb)]; [reflexivity|]. cbn [run]. now rewrite Hb, H3, H4, Hw.
 Qed.
 
 Lemma run_dt_name : forall env tok d s p v T acc, names env tok d ->
@@ -551,11 +565,18 @@ Proof.
   - reflexivity.
 Qed.
 
+Lemma int_not_bn : forall w, is_int_lex w = true -> bn_word w = None.
+Proof.
+  intros [|a [|b l]] H; try reflexivity. cbn [bn_word]. destruct (N.eqb_spec a 95) as [->|]; [|reflexivity].
+  discriminate.
+Qed.
+
 Lemma run_term : forall ns q s p t T acc, q_ok ns q = true -> term_ok t = true -> term_start T = true ->
   run (rev ns) (RObj s p) (tok_term q t ++ T) acc = run (rev ns) (RAfter s p) T (acc ++ [(s, p, t)]).
 Proof.
-  intros ns q s p [u|lex lang dt] T acc Hq Hok HT.
+  intros ns q s p [u|l|lex lang dt] T acc Hq Hok HT.
   - cbn [tok_term app]. now apply run_obj_name, tok_iri_names.
+  - reflexivity.
   - assert (Hquoted : run (rev ns) (RObj s p) (tok_quoted q lex lang dt ++ T) acc
                       = run (rev ns) (RAfter s p) T (acc ++ [(s, p, TLit lex lang dt)])).
     { unfold tok_quoted. destruct lang as [l|]; destruct dt as [d|]; simpl in Hok; try discriminate.
@@ -566,12 +587,13 @@ Proof.
     cbn [tok_term]. destruct dt as [d|]; [|exact Hquoted].
     assert (Hlang : lang = None) by (destruct lang; [discriminate|reflexivity]). subst lang.
     destruct (str_eqb d xsd_integer_s && is_int_lex lex) eqn:E1.
-    + apply andb_true_iff in E1 as [Ed Ei]. apply str_eqb_eq in Ed. subst d. cbn [app run]. now rewrite Ei.
+    + apply andb_true_iff in E1 as [Ed Ei]. apply str_eqb_eq in Ed. subst d. cbn [app run].
+      rewrite (int_not_bn lex Ei). now rewrite Ei.
     + destruct (str_eqb d xsd_boolean_s && (str_eqb lex s_true || str_eqb lex s_false)) eqn:E2; [|exact Hquoted].
       apply andb_true_iff in E2 as [Ed Eb]. apply str_eqb_eq in Ed. subst d. cbn [app run].
-      assert (Hni : is_int_lex lex = false).
-      { apply orb_true_iff in Eb as [Eb|Eb]; apply str_eqb_eq in Eb; subst lex; reflexivity. }
-      now rewrite Hni, Eb.
+      assert (Hni : is_int_lex lex = false /\ bn_word lex = None).
+      { apply orb_true_iff in Eb as [Eb|Eb]; apply str_eqb_eq in Eb; subst lex; split; reflexivity. }
+      destruct Hni as [Hni Hnb]. now rewrite Hnb, Hni, Eb.
 Qed.
 
 Lemma run_after_comma : forall env s p T acc, run env (RAfter s p) (KComma :: T) acc = run env (RObj s p) T acc.
@@ -609,7 +631,7 @@ Proof.
   rewrite (run_objs_tail ns) by assumption. cbn [map]. rewrite <- ?app_assoc; reflexivity.
 Qed.
 
-Definition po_triples (s : str) (ps : list (str * list tterm)) : list ttriple :=
+Definition po_triples (s : tterm) (ps : list (str * list tterm)) : list ttriple :=
   flat_map (fun po => map (fun o => (s, fst po, o)) (snd po)) ps.
 
 Lemma tpred_more_start : forall q r T, term_start (flat_map (tpred_more q) r ++ KWord s_dot :: T) = true.
@@ -639,8 +661,11 @@ Proof.
   simpl in Hps. apply andb_true_iff in Hps as [Hpo Hr].
   unfold po_ok in Hpo. cbn [fst snd] in Hpo. apply andb_true_iff in Hpo as [Hpo Hts]. apply andb_true_iff in Hpo as [Hp Hne'].
   assert (Hos : os <> []) by (destruct os; [discriminate|congruence]).
-  unfold toks_stmt. cbn [fst snd toks_preds app].
-  rewrite (run_subj (rev ns) _ s) by (now apply tok_iri_names).
+  unfold toks_stmt. cbn [fst snd toks_preds].
+  assert (Hsub : forall T', run (rev ns) RSubj (tok_term q s ++ T') acc = run (rev ns) (RPred s) T' acc).
+  { intros T'. destruct s as [u|l|lex lang dt]; [|reflexivity|discriminate].
+    cbn [tok_term app]. now apply run_subj, tok_iri_names. }
+  rewrite <- ?app_assoc. rewrite Hsub. cbn [app].
   rewrite (run_pred ns) by exact Hq. rewrite <- ?app_assoc. cbn [app].
   rewrite (run_objs ns) by (try assumption; apply tpred_more_start).
   rewrite (run_preds_tail ns) by assumption. unfold po_triples. cbn [flat_map fst snd]. rewrite <- ?app_assoc; reflexivity.
@@ -686,8 +711,9 @@ Proof.
 Qed.
 Lemma tok_term_nb : forall q t, forallb not_bad (tok_term q t) = true.
 Proof.
-  intros q [u|lex lang dt]; cbn [tok_term forallb].
+  intros q [u|l|lex lang dt]; cbn [tok_term forallb].
   - now rewrite tok_iri_nb.
+  - reflexivity.
   - assert (Hq : forallb not_bad (tok_quoted q lex lang dt) = true).
     { unfold tok_quoted. cbn [forallb not_bad andb]. destruct (truthy lang); [reflexivity|].
       destruct (truthy dt); [|reflexivity]. cbn [forallb not_bad andb]. now rewrite tok_name_nb. }
@@ -702,7 +728,7 @@ Proof.
 Qed.
 Lemma toks_stmt_nb : forall q sp, forallb not_bad (toks_stmt q sp) = true.
 Proof.
-  intros q [s ps]. unfold toks_stmt. cbn [fst snd forallb]. rewrite tok_iri_nb. cbn [andb].
+  intros q [s ps]. unfold toks_stmt. cbn [fst snd]. rewrite forallb_app, tok_term_nb. cbn [andb].
   rewrite forallb_app. cbn [forallb not_bad andb]. rewrite andb_true_r.
   destruct ps as [|[p os] r]; [reflexivity|]. cbn [toks_preds forallb]. rewrite tok_iri_nb. cbn [andb].
   rewrite forallb_app, toks_objs_nb. cbn [andb]. apply forallb_flat_map. intros [p' os'].
@@ -732,9 +758,9 @@ Qed.
 Lemma list_ttriple_eqb_refl : forall l, list_eqb ttriple_eqb l l = true.
 Proof.
   assert (Ht : forall t, tterm_eqb t t = true).
-  { intros [u|l g d]; simpl; [apply str_eqb_refl|]. rewrite str_eqb_refl.
+  { intros [u|b|l g d]; simpl; [apply str_eqb_refl|apply str_eqb_refl|]. rewrite str_eqb_refl.
     destruct g, d; simpl; rewrite ?str_eqb_refl; reflexivity. }
-  induction l as [|[[s p] o] l IH]; [reflexivity|]. simpl. now rewrite !str_eqb_refl, Ht, IH.
+  induction l as [|[[s p] o] l IH]; [reflexivity|]. simpl. now rewrite !Ht, str_eqb_refl, IH.
 Qed.
 
 Theorem ts_spec_model : forall c, ts_wf c = true -> tset_eqb (plan_triples (ts_plan c)) (ts_g c) = true ->
